@@ -1117,6 +1117,7 @@ func collectIndexTerms(asserts []*Term, skolems []*Term) map[string][]*Term {
 			}
 		})
 	}
+	add(BVLit(0, 64))
 	for k := range pool {
 		sort.Slice(pool[k], func(i, j int) bool { return len(pool[k][i].String()) < len(pool[k][j].String()) })
 	}
